@@ -201,6 +201,12 @@ func c15Bases(c *vlib.Ctx) []CfgLit {
 			}
 		}
 	}
+	// more distinct schemes than a small fixed-size table holds; a public suffix nested below a domain that is not one
+	out = append(out,
+		CfgLit{Origins: []string{"wss://e.x", "ws://e.x", "https://e.x", "http://e.x", "app://e.x", "ionic://e.x", "capacitor://e.x"}},
+		CfgLit{Origins: []string{"https://*.s3.amazonaws.com", "https://*.amazonaws.com"}},
+		CfgLit{Origins: []string{"https://*.amazonaws.com:*", "https://*.s3.amazonaws.com:8443", "https://amazonaws.com"}},
+		CfgLit{Origins: []string{"https://*.s3.amazonaws.com", "https://*.amazonaws.com"}, TolPSL: true})
 	// long names in mixed case (case conversion has to reach every byte)
 	longName := "X-" + strings.Repeat("Ab", 60)
 	out = append(out,
